@@ -21,6 +21,7 @@ LEVEL = "exploration"
 TECHNIQUE = ("deterministic simulation: seeded interleaving of add/pause/unpause/fire operations on real Deferreds "
              "vs an independent recursive reference interpreter, compared after every operation")
 QUICK_RUNS = 40000
+TWIN_P = 0.08   # this share of the runs drives two independent instances of the scenario one after the other (detsim.runner._run_scenario)
 BATCH = 500
 COMPONENTS = {"real": ["twisted.internet.defer.Deferred (addCallbacks/addCallback/addErrback/addBoth/callback/errback/pause/unpause/_runCallbacks)",
                        "twisted.python.failure.Failure"],
